@@ -76,20 +76,20 @@ CHECKS = {
    note='Trusted: R8: the cast `table as *const _ as u64` is replaced by an uninterpreted address function; R10: `!=` on Result<PhysFrame, FrameError> replaced by a helper with the derived-PartialEq contract; Cr3::read is a contracted callee here (verified under C16).'),
  'C01': dict(engine=E1, cat='other',
    tech='contract-based verification with Kani: proved walker/trait building blocks + bounded one-step harnesses (pre/post comparison against an independent hardware-style walker) on MappedPageTable with an arbitrary frame mapping',
-   text='Complete proofs: PageTableWalker::next_table/next_table_mut/create_next_table over one symbolic entry, all error conversions, Mapper::map_to parent-flag derivation, identity_map, translate_addr, PhysOffset::frame_to_pointer. Bounded stand-in: one-step harnesses per operation x page size x path shape from an arbitrary sparse pre-state over a pool of separate page tables, checked against an independent walker over the raw words; all histories follow by induction over steps within those bounds. OffsetPageTable by composition: MappedPageTable is checked for an arbitrary P, PhysOffset::frame_to_pointer == offset + frame is proved, and each of the 23 forwarding methods of offset_page_table.rs is verified by Verus to return exactly what the same-named inner method returns for the same arguments. RecursivePageTable: create_next_table (complete) and bounded 4 KiB step harnesses through a software-MMU stub of VirtAddr::as_mut_ptr.',
-   note='Bounded: pool of 7 separate tables with symbolic pairwise-distinct frame addresses, tree-shaped sparse pre-state with symbolic neighbour words, four concrete index tuples with pairwise distinct indices (one per harness; quick tier runs a representative subset), symbolic probe address; RecursivePageTable 2 MiB / 1 GiB operations and set_flags_pN_entry have no step harness; clean_up not covered (C10). Trusted: Kani/CBMC; PageTable::zero replaced by its contract (proved under C08) inside the step harnesses.'),
+   text='Complete proofs: PageTableWalker::next_table/next_table_mut/create_next_table over one symbolic entry, all error conversions, Mapper::map_to parent-flag derivation, identity_map, translate_addr, PhysOffset::frame_to_pointer. Bounded stand-in: one-step harnesses per operation x page size x path shape from an arbitrary sparse pre-state over a pool of separate page tables, checked against an independent walker over the raw words; all histories follow by induction over steps within those bounds. OffsetPageTable by composition: MappedPageTable is checked for an arbitrary P, PhysOffset::frame_to_pointer == offset + frame is proved, and each of the 23 forwarding methods of offset_page_table.rs is verified by Verus to return exactly what the same-named inner method returns for the same arguments. RecursivePageTable: create_next_table (complete) and bounded step harnesses for every operation of the three page sizes and every set_flags_pN_entry, through a software-MMU stub of VirtAddr::as_mut_ptr (the recursive address is resolved by the oracle\'s own walk from CR3; an address that leaves the page tables reaches a trap table and fails a named clause).',
+   note='Bounded: pool of 7 separate tables with symbolic pairwise-distinct frame addresses, tree-shaped sparse pre-state with symbolic neighbour words, four concrete index tuples with pairwise distinct indices (one per harness; quick tier runs a representative subset), symbolic probe address; recursive index fixed to 300; clean_up not covered here (C10, MappedPageTable only). Trusted: Kani/CBMC; PageTable::zero replaced by its contract (proved under C08) inside the step harnesses.'),
  'C02': dict(engine=E1, cat='other',
    tech='contract-based verification with Kani: error-shape obligations and unchanged-on-error frame conditions in the bounded one-step harnesses; create_next_table error paths proved completely',
    text='For each path shape the documented error is asserted exactly (PageAlreadyMapped, ParentEntryHugePage, PageNotMapped, FrameAllocationFailed at each of the up to three allocation points) and on every Err the independent walker\'s answer for the target and a symbolic probe is unchanged and only parent flags were added. create_next_table\'s error paths are complete proofs over a symbolic entry.',
-   note='Bounded as C01. One genuine defect found and fixed (failed map_to widened a huge page\'s flags); eleven obligations (2 MiB / 1 GiB update_flags and translate_page on table-pointing entries, set_flags_p3/p2_entry on huge leaves, recursive 4 KiB update_flags / translate_page through huge parents) are OPEN known findings (known_findings.txt): the check prints KNOWN-FINDING for them and exits 0.'),
+   note='Bounded as C01. Two genuine defects found and fixed (d104422: a failed map_to widened a huge page\'s flags; 22293bc: RecursivePageTable update_flags / translate_page / set_flags_p2_entry walked through a huge parent into its data frame); fourteen obligations (2 MiB / 1 GiB update_flags and translate_page on table-pointing entries, set_flags_p3/p2_entry on huge leaves, both mappers) are OPEN known findings (known_findings.txt): the check prints KNOWN-FINDING for them and exits 0.'),
  'C10': dict(engine=E1, cat='other',
    tech='contract-based verification with Kani: bounded clean_up_addr_range checks on concrete page-table hierarchies (literal tables so CBMC constant-propagates the 512-entry scans), deallocator log and pre/post comparison against an independent walker',
    text='Bounded stand-in only. For MappedPageTable::clean_up_addr_range on nine hand-picked concrete hierarchies (window inside a P1, window inside a P2, huge pages in P2 and P3, middle P1, two P1s across a boundary, empty range; thorough: full chain, canonical gap, last page) the harness asserts: every freed frame is a level-1..3 table of an allowed set that was empty at that moment, never the level-4 table / a huge frame / an unknown frame; each freed once and only after its parent slot was cleared; every table wholly inside the range that is or becomes empty was freed; through one symbolic (table, slot) every word is zero if it linked a freed table and unchanged otherwise; an independent walk of a symbolic address gives the same translation before and after; a second call frees and writes nothing.',
    note='Bounded: concrete pre-states (one symbolic table word already exhausts 14 GB), concrete ranges, pool of 7 tables, MappedPageTable only. NOT covered: clean_up() over the whole address space (no verdict in 25 min), ranges covering a whole level-2/3 table, RecursivePageTable (recursive slot clause), symbolic hierarchies. Nothing here is counted as proved.'),
  'C09': dict(engine=E1, cat='other',
    tech='contract-based verification with Kani: word-by-word frame condition over the whole table pool through one symbolic (table, slot), allocator call counting, zero-before-use ghost flag, pointer checks for any access outside the pool',
-   text='In every step harness all pool tables are compared before/after through one symbolic (table, slot) pair so only the dictated slots may change; data frames are not backed by objects, so any access outside page-table memory is a Kani pointer failure; allocator calls are counted (<= 1/2/3, none when tables exist, none in other operations); a fresh table is zeroed before its first entry is written. create_next_table: allocation iff unused, zeroed before return (complete proof).',
-   note='Bounded as C01; clean_up (the only releasing operation) is not covered (C10).'),
+   text='In every step harness all pool tables are compared before/after through one symbolic (table, slot) pair so only the dictated slots may change; data frames are not backed by objects: for MappedPageTable a frame_to_pointer request outside the pool, for RecursivePageTable a recursive address that does not resolve (by the hardware walk from CR3) to a page table of the pool is counted and fails the named clause no_access_outside_page_tables; allocator calls are counted (<= 1/2/3, none when tables exist, none in other operations); a fresh table is zeroed before its first entry is written. create_next_table (both mappers): allocation iff the entry word is zero, none for any non-zero word, zeroed before return (complete proof).',
+   note='Bounded as C01; clean_up (the only releasing operation) is checked under C10 for MappedPageTable only. The walk-through defect repaired by 22293bc was a C09 violation too (writes into mapped data).'),
 }
  # (C10 moved to CHECKS: a bounded Kani check over concrete hierarchies exists since lib/C10_NOTES.md)
 NOT_APPLICABLE = {
